@@ -234,9 +234,9 @@ fn base_problem(rng: &mut Rng, small: bool) -> (Problem, &'static str) {
     }
     match rng.usize(0, 9) {
         0..=6 => {
-            // a fifth of the feasible problems have loose constraints (slacks of size 10..1000 at the planted point)
+            // a third of the feasible problems have loose constraints (slacks of size 10..1000 at the planted point)
             let mut pl = gen::planted_wellposed(rng, &o);
-            if rng.bool(0.2) {
+            if rng.bool(0.35) {
                 crate::c01::loosen(&mut pl, rng);
             }
             (pl.problem, "feasible")
